@@ -1,4 +1,66 @@
-import YV.Spec.XCompile
+/-
+  C02 — location paths resolve to exactly the designated data node.  Headline theorems
+  (lemmas: YV/Proofs/XPathC.lean, YV/Proofs/XKeys.lean, YV/Proofs/XRun.lean).
+-/
+import YV.Proofs.XPathC
+import YV.Proofs.XKeys
+import YV.Proofs.XRun
 namespace YV.C02
-theorem placeholder : True := trivial
+open YV YV.X YV.XP YV.XM YV.XPS YV.XC
+
+/-- Full statement of the property (kept visible):  for every supported path `p`, every tree `t`
+    without injected fault, `run (program p)` = the specification's requests and value.
+    What is proved is `C02_nav_partial`: the same statement for paths whose predicate operands are
+    literals, numbers and predicate-free paths (absolute, current()-rooted, '..'-rooted) and whose
+    predicates use pairwise different keys per step (`GoodPath`).  Missing: function-result operands
+    (their value is C01's scalar evaluation; the correspondence stream c02 covers them by testing).
+    Two predicates with the same key on one step are outside what the property fixes. -/
+theorem C02_nav_partial (t : Tree) (hf : NoFault t) (hv : ValidTree t) (p : PathE) (hg : GoodPath p) :
+    run true t (program (.path p)) =
+      { value := some (evalPath t p).2, err := none, trace := (evalPath t p).1 } :=
+  run_path_eq_spec t hf hv p hg
+
+theorem stepKeys_fst (t : Tree) (here : Path) (preds : List (Str × Operand)) :
+    (stepKeys t here preds).1 = preds.map (fun kv => (kv.1, (operandValue t here kv.2).1)) := by
+  induction preds with
+  | nil => rfl
+  | cons kv preds ih => obtain ⟨k, op⟩ := kv; simp [stepKeys, ih]
+
+/-- Predicate order is irrelevant for the node that is designated: permuting the predicates of a step
+    (pairwise different keys) leaves the step's path element — name and key set — unchanged. -/
+theorem C02_pred_order (t : Tree) (p : Path) (n : Str) (preds preds' : List (Str × Operand))
+    (hp : preds.Perm preds') (hd : (preds.map Prod.fst).Nodup) :
+    (stepPath t p (.named n preds)).1 = (stepPath t p (.named n preds')).1 := by
+  simp only [stepPath, stepKeys_fst]
+  have h := keysOf_perm
+    (preds.map (fun kv => (kv.1, (operandValue t { p with elems := p.elems ++ [{ name := n }] } kv.2).1)))
+    (preds'.map (fun kv => (kv.1, (operandValue t { p with elems := p.elems ++ [{ name := n }] } kv.2).1)))
+    (hp.map _) (by simpa [List.map_map, Function.comp_def] using hd)
+  simp only [keysOf] at h
+  rw [h]
+
+/-- A prefix on a step never changes which node is addressed: the machine does not look at it. -/
+theorem C02_prefix_irrelevant (t : Tree) (pfx pfx' loc : List XL.Rune) (s : MSt) :
+    step true t (.namePush pfx loc) s = step true t (.namePush pfx' loc) s :=
+  step_prefix_irrelevant true t pfx pfx' loc s
+
+/-- non-vacuity: `/a/b[k2=../x][k1='v']/c` is a covered path, on a concrete tree -/
+def exPath : PathE :=
+  .basic .abs [.named "a".toList [],
+               .named "b".toList [("k2".toList, .path ⟨.rel, [.up, .name "x".toList]⟩), ("k1".toList, .lit "v".toList)],
+               .named "c".toList []]
+
+def exTree : Tree := { value := fun p => .lit (showPath p).toList, derefTarget := id }
+
+example : GoodPath exPath ∧ NoFault exTree ∧ ValidTree exTree := by
+  refine ⟨?_, rfl, fun p => by simp [exTree]⟩
+  intro st hst
+  simp [exPath] at hst
+  rcases hst with h | h | h <;> subst h <;> simp [GoodStep, GoodPreds, simpleOp]
+
+example : (run true exTree (program (.path exPath))).trace =
+    ["Navigate(ROOT/a/b/../x)", "GetValue(ROOT/a/b/../x)",
+     "Navigate(ROOT/a/b[k1=v][k2=ROOT/a/b/../x]/c)", "GetValue(ROOT/a/b[k1=v][k2=ROOT/a/b/../x]/c)"] := by
+  decide
+
 end YV.C02
